@@ -119,6 +119,44 @@ def IfTree.strip {β : Type} : IfTree β → IfTree β
   | .ite b els => .ite b els.strip
   | .wrapped t => t.strip
 
+/-! ## the produced-placeholders flag across nested synthesis runs
+(`TypingContext::run_in_synthesis_mode`, typing_context.rs:98-111, `mk_placeholder_type` 120-123)
+
+While an argument is synthesised, further generic calls inside it start nested synthesis runs.
+`run_in_synthesis_mode` saves the flag, runs the closure, reads the flag as its result and restores
+the saved value. -/
+
+/-- what happens, in order, while one synthesis run is active -/
+inductive SynthEv where
+  | placeholder                       -- `mk_placeholder_type`: `produced_placeholders = true`
+  | nested (body : List SynthEv)      -- a nested `run_in_synthesis_mode`
+
+/-- how `run_in_synthesis_mode` treats the flag (generated from the source) -/
+inductive FlagDiscipline where
+  | saveRestore      -- save on entry, read, restore the saved value
+  | resetNoRestore   -- set to false on entry, read, leave as is
+  deriving DecidableEq, Repr
+
+mutual
+/-- the flag after the events of the current run, starting from `flag` -/
+def flagAfter (d : FlagDiscipline) : Bool → List SynthEv → Bool
+  | flag, [] => flag
+  | _, .placeholder :: rest => flagAfter d true rest
+  | flag, .nested body :: rest => flagAfter d (runSynth d flag body).2 rest
+/-- one `run_in_synthesis_mode`: (the `produced` it returns, the caller's flag afterwards) -/
+def runSynth (d : FlagDiscipline) : Bool → List SynthEv → Bool × Bool
+  | flag, body =>
+    match d with
+    | .saveRestore => (flagAfter d flag body, flag)
+    | .resetNoRestore => (flagAfter d false body, flagAfter d false body)
+end
+
+/-- a placeholder produced directly in this run (not inside a nested run) -/
+def directPlaceholder : List SynthEv → Bool
+  | [] => false
+  | .placeholder :: _ => true
+  | .nested _ :: rest => directPlaceholder rest
+
 /-! ## the rewrite "make an inferred lambda-parameter type explicit" -/
 
 def annotateAt : Nat → List Bool → List Bool
